@@ -420,6 +420,39 @@ func c06Catalogue(k *c06Keys, rt *rapid.T) []c06Outcome {
 			_ = cm.w.WriteMsg(&RequesterAcknowledgePayload{Success: true})
 		}))
 	}
+	// 4b. live relay between two concurrent sessions: honest A sends a request to M (targets M's account); M, holding
+	// no key of A, opens a session to B and copies A's frames into it. B's peer never proves possession of A's key
+	// (the proof A made is bound to the account it targeted), so B must not report A.
+	for _, ack := range []string{"forged-ack", "no-ack"} {
+		out = append(out, c06AttackResponder(k, "relay-request-addressed-to-adversary/"+ack, func(cm *c06Conn, o *c06Outcome) {
+			ca, cma := c06Pipe()
+			doneA := c06RunRequester(ca, k.A, k.M.GetPublic())
+			defer func() { _ = cma.c.Close(); <-doneA }()
+			_ = cma.c.SetDeadline(time.Now().Add(5 * time.Second))
+			a, err := cma.readHello()
+			if err != nil || cm.sendHello(a) != nil {
+				return
+			}
+			b, err := cm.readHello()
+			if err != nil || cma.sendHello(b) != nil {
+				return
+			}
+			raw, err := cma.readBoxRaw()
+			if err != nil {
+				return
+			}
+			o.passedBox = true // a genuine proof of A over this very a.b: only the binding to the targeted account stands
+			if cm.w.WriteMsg(&BoxEnvelope{Box: raw}) != nil {
+				return
+			}
+			if _, err := cm.readBoxRaw(); err != nil {
+				return
+			}
+			if ack == "forged-ack" {
+				_ = cm.w.WriteMsg(&RequesterAcknowledgePayload{Success: true})
+			}
+		}))
+	}
 	// 5. reflection and re-ordering
 	out = append(out, c06AttackResponder(k, "reflect-responder-hello-as-authenticate", func(cm *c06Conn, o *c06Outcome) {
 		if cm.sendHello(honestPub) != nil {
